@@ -443,7 +443,7 @@ def provenance_ok(A, f, node, expr, role, depth=0):
     """expr (evaluated at CFG node `node` of f) is the result of a converter
     for `role`, possibly through locals or a parameter whose every caller
     passes such a value."""
-    conv = CONVERTERS[role]
+    conv = CONVERTERS[role] if isinstance(role, str) else role
     if isinstance(expr, ast.Call):
         names = A.callee_names(f, expr)
         if names and all(n in conv for n in names):
